@@ -171,6 +171,8 @@ func (p *ClosingTagPP) Close() error   { return zeroClose(p.Nm) }
 // programmatically (not through SetComponents): eager components like any other.
 type RegistrarPP struct {
 	Nodes []Node
+	// Names, when set, are the names the definitions are registered under (instead of the nodes' own)
+	Names []string
 }
 
 func (f *RegistrarPP) Naming() string { return "verif.registrar" }
@@ -181,8 +183,12 @@ func (f *RegistrarPP) Bind(r *Run) {
 	}
 }
 func (f *RegistrarPP) PostProcessComponentFactory(factory container.Factory) error {
-	for _, n := range f.Nodes {
-		factory.GetDefinitionRegistry().GetMetaOrRegister(n.DisplayName(), n)
+	for i, n := range f.Nodes {
+		name := n.DisplayName()
+		if i < len(f.Names) {
+			name = f.Names[i]
+		}
+		factory.GetDefinitionRegistry().GetMetaOrRegister(name, n)
 	}
 	return nil
 }
